@@ -13,7 +13,8 @@ CONSTANTS Cap,          \* client cache capacity
           MaxOps,       \* history length
           Suites,       \* e.g. {"CBC", "GCM"}
           Names,        \* server names the client connects to (cache keys)
-          Versions      \* versions the client may switch between ({} : single-version protocol)
+          Versions,     \* versions the client may switch between ({} : single-version protocol)
+          ShapeName     \* "free", or the name of a history shape (ShapeOf)
 
 VARIABLES keys,      \* server: sequence of ticket key ids, first seals
           nextKey,   \* fresh key ids
@@ -97,14 +98,20 @@ Tamper(n, r) == /\ Lookup(n).found /\ ~Lookup(n).t.bad
 SetVers(v) == /\ Versions # {} /\ v # cvers /\ cvers' = v /\ hist' = Append(hist, [op |-> "vers", v |-> v])
               /\ UNCHANGED <<keys, nextKey, ssuites, csuites, cauth, disabled, ccert, cache, nextSid>>
 NonEmpty == {x \in SUBSET Suites : x # {}}
+\* an optional shape restricts which operation may come at which position (used to enumerate families of histories
+\* exhaustively, e.g. "set the client-certificate policy, connect, any change, connect, connect")
+ShapeOf == CASE ShapeName = "cert_x_cc" -> <<{"auth"}, {"connect"}, {"rotate", "ssuites", "csuites", "auth", "disabled", "vers", "tamper", "connect"}, {"connect"}, {"connect"}>>
+             [] OTHER -> <<>>
+Allowed(name) == IF Len(hist) >= Len(ShapeOf) THEN TRUE ELSE name \in ShapeOf[Len(hist) + 1]
 Next == /\ Len(hist) < MaxOps
-        /\ \/ \E n \in Names : Connect(n)
-           \/ \E k \in BOOLEAN : Rotate(k)
-           \/ \E x \in NonEmpty : SetSSuites(x) \/ SetCSuites(x)
-           \/ \E a \in {"none", "request", "require"}, cc \in BOOLEAN : SetAuth(a, cc)
-           \/ \E b \in BOOLEAN : SetDisabled(b)
-           \/ \E v \in Versions : SetVers(v)
-           \/ \E n \in Names, r \in {"keyname", "iv", "state", "mac", "truncate", "extend"} : Tamper(n, r)
+        /\ \/ Allowed("connect") /\ \E n \in Names : Connect(n)
+           \/ Allowed("rotate") /\ \E k \in BOOLEAN : Rotate(k)
+           \/ Allowed("ssuites") /\ \E x \in NonEmpty : SetSSuites(x)
+           \/ Allowed("csuites") /\ \E x \in NonEmpty : SetCSuites(x)
+           \/ Allowed("auth") /\ \E a \in {"none", "request", "require"}, cc \in BOOLEAN : SetAuth(a, cc)
+           \/ Allowed("disabled") /\ \E b \in BOOLEAN : SetDisabled(b)
+           \/ Allowed("vers") /\ \E v \in Versions : SetVers(v)
+           \/ Allowed("tamper") /\ \E n \in Names, r \in {"keyname", "iv", "state", "mac", "truncate", "extend"} : Tamper(n, r)
 Spec == Init /\ [][Next]_vars
 
 \* ---- properties (history-level) ----
